@@ -1,4 +1,5 @@
 #include "cpu.h"
+#include <sys/time.h>
 #include <sys/mman.h>
 #include <cpuid.h>
 #include <signal.h>
@@ -348,6 +349,8 @@ void Env::begin_run(uint64_t hidden_seed, RunResult *r)
         secrets.clear();
         scan_secrets = false;
         tainted = false;
+        call_cpu_limit_s = 0;
+        cancel_is_benign = false;
         hidden.fill(poison_ref.data(), poison_ref.size());
         // the stack phase is undeclared state too: the ABI only promises rsp % 16 == 8 at entry, so every run picks one
         // of the four phases modulo 64 (a 64-byte aligned trampoline stack would always enter at 56)
@@ -496,13 +499,48 @@ uint64_t Env::call(const char *entry, void *fn, std::initializer_list<uint64_t> 
         uint64_t rax = 0;
         g_fault_armed = 1;
         if (sigsetjmp(g_fault_jmp, 1) == 0) {
+                if (call_cpu_limit_s > 0) {
+                        struct itimerval it;
+                        memset(&it, 0, sizeof it);
+                        it.it_value.tv_sec = (time_t) call_cpu_limit_s;
+                        it.it_value.tv_usec = (suseconds_t) ((call_cpu_limit_s - (double) (time_t) call_cpu_limit_s) * 1e6);
+                        setitimer(ITIMER_VIRTUAL, &it, nullptr);
+                }
                 rax = simcall(&f);
                 g_fault_armed = 0;
+                if (call_cpu_limit_s > 0) {
+                        struct itimerval it;
+                        memset(&it, 0, sizeof it);
+                        setitimer(ITIMER_VIRTUAL, &it, nullptr);
+                }
         } else {
                 // a fault inside the library call
                 g_fault_armed = 0;
                 if (g_after_call_hook)
                         g_after_call_hook();
+                if (g_fault.signo == SIGVTALRM) {
+                        struct itimerval it;
+                        memset(&it, 0, sizeof it);
+                        setitimer(ITIMER_VIRTUAL, &it, nullptr);
+                        memcpy((uint8_t *) (uintptr_t) call_rsp - DEAD, poison_ref.data(), poison_ref.size());
+                        if (cancel_is_benign) {
+                                res->cov.hit("call_cancelled_by_the_harness_at_its_cpu_limit");
+                                res->ev.add(0xca9ce1);
+                                tainted = true;
+                                throw RunAbort();
+                        }
+                        extern std::string addr_to_sym(uintptr_t);
+                        Violation v;
+                        v.prop = "C08";
+                        v.cls = "no-return";
+                        v.sig = std::string("C08/no-return/") + entry;
+                        v.detail = strfmt("%s did not return within %.0f s of CPU time (last seen at %s) [fatal]", entry, call_cpu_limit_s, addr_to_sym(g_fault.rip).c_str());
+                        v.op_index = op_index;
+                        v.ev_seq = res->ev.n;
+                        res->viols.push_back(v);
+                        res->ev.add(hash_str(v.sig.c_str()));
+                        throw RunAbort();
+                }
                 long off = 0;
                 int bi = mem.find(g_fault.addr, &off);
                 std::string d, sig, cls;
